@@ -61,6 +61,8 @@ def module_for(seed, i, alt_syms=False):
     if i < len(shipped):
         return shipped[i][0], shipped[i][1]()
     rng = random.Random(seed * 7919 + i)
+    if i % 9 == 4 and not alt_syms:
+        return f'sharednot{i}', mw.shared_definition_notations_module(rng).mod
     if i % 3 == 2 and not alt_syms:
         # nested, symbol-bearing axioms under a repeatedly used super-pattern: the memoisation analysis has to rank them
         return f'nested{i}', mw.nested_axioms_module(rng).mod
